@@ -118,6 +118,13 @@ func filterMain(args mon.Args) {
 			d := wire.GenSFDatagram(g, false)
 			d.Seq = uint32(k + 1)
 			d.Agent = src.To4()
+			if k%3 == 1 {
+				// an IPv6 agent address (a field of the datagram, independent of the UDP source)
+				d.Agent = append([]byte{0x20, 0x01, 0x0d, 0xb8, 0, 0, 0, 0, 0, 0, 0, byte(ci)}, src.To4()...)
+			}
+			if k%2 == 0 {
+				d.SubAgent = 0
+			}
 			if len(d.Samples) < 2 {
 				d.Samples = append(d.Samples, wire.GenSFSample(g, "counter", false), wire.GenSFSample(g, "flow", false))
 			}
